@@ -61,8 +61,8 @@ CHECKS = {
  "C16": dict(
   technique="explicit-state exploration of base states (DFS, digest dedup) with an exhaustive fork differential in every state: precompile call vs native message, both through the real DeliverTx, all persistent stores diffed",
   engine="E1",
-  text="Base states = every sequence <= 2 (thorough 3) of native delegate / undelegate / redelegate / set-withdraw-address / block boundary (rewards accrue through coinomics). In each state ~130 precompile calls (staking delegate, undelegate, redelegate, cancelUnbondingDelegation; distribution setWithdrawAddress, withdrawDelegatorRewards, claimRewards; validators valid/unknown/malformed; amounts 0, 1, mid, all, all+1, 2^256-1; creation heights) are executed by the owner as an Ethereum transaction on one branch and as the corresponding Cosmos transaction on another: success/failure must agree and every persistent store must be identical (EVM-side artefacts whitelisted: precompile account record, account-number counter, signer sequence). Read-only staking methods and the bank methods are compared with the modules' own state through the public eth_call entry point.",
-  note="Gas price 0. ICS-20, createValidator and withdrawValidatorCommission legs are not in the alphabet. Query outputs are checked for containing the module's figures.",
+  text="Base states = every sequence <= 2 (thorough 3) of native delegate / undelegate / redelegate / set-withdraw-address / block boundary (rewards accrue through coinomics). In each state ~205 precompile calls (staking delegate, undelegate, redelegate, cancelUnbondingDelegation, createValidator with 9 argument cases; distribution setWithdrawAddress, withdrawDelegatorRewards, claimRewards, withdrawValidatorCommission signed by a validator's operator; ics20.transfer over the loopback channel with valid / unknown channels, denominations, amounts, timeouts; validators valid/unknown/malformed; amounts 0, 1, mid, all, all+1, 2^256-1; creation heights) are executed by the owner as an Ethereum transaction on one branch and as the corresponding Cosmos transaction on another: success/failure must agree and every persistent store must be identical (EVM-side artefacts whitelisted: precompile account record, account-number counter, signer sequence). Read-only staking methods (delegation, unbondingDelegation, validator, validators over 4 statuses x 4 page requests, redelegation, redelegations) and the bank methods are compared with the modules' own state / the native querier through the public eth_call entry point.",
+  note="Gas price 0. Query outputs are checked for containing the module's figures in the native order and for their counts.",
   design="DESIGN.md §3 C16"),
  "C05": dict(
   technique="exhaustive enumeration of a bounded call-tree family, each tree synthesised as EVM bytecode and executed twice through the real DeliverTx (as is / with the failing frames switched off by a storage switch in identical code) with a diff of all persistent stores, logs and supply; plus a model-checked re-entry family",
